@@ -39,7 +39,7 @@ func TestC12(t *testing.T) {
 		defer mc.Close()
 		defer mc.Guard(t)
 		cfg := TxnCfg{Prop: "C12", MaxSteps: 8, Rollback: true, FailInsert: true, Deletes: true, Inserts: true, Merges: true, KeyOps: true, Direct: true,
-			NoStoreOnDel: KFActive("f11-store-and-delete-same-txn")}
+			NoStoreOnDel: KFActive("f11-store-and-delete-same-txn"), NoOpAfterLenMerge: KFActive("f15-difflen-merge-reorder")}
 		freed := map[string]bool{} // keys that were deleted or re-keyed away at some point
 		interesting := false
 		mc.OnTxn = func(spec TxnSpec, res []StepResult, committed bool, eff *TxnEffect) {
